@@ -181,6 +181,10 @@ def work(args):
                 desc = mix_engine(kinds, pat, style)
                 if desc is None:
                     continue
+                if style != 'legacy' and pat == 2:
+                    # the same package beginning with a class the scanner is told
+                    # to ignore (a template / an abstract base): still compliant
+                    desc = dict(desc, ignored='template' if n % 2 else 'abstract')
                 ctx.count('accept_cases')
                 ok, why, eng = verdict(desc, root)
                 label = '+'.join(kinds)
